@@ -39,6 +39,12 @@ Opcode(m) == (At(m, 2) \div 8) % 16
 TC(m) == (At(m, 2) \div 2) % 2 = 1
 Rcode(m) == At(m, 3) % 16
 Count(m, sec) == U16(m, 4 + 2 * sec)             \* sec 0..3 = QD AN NS AR
+\* every flag and field of the two flag octets, as Header's accessors, the
+\* Flags struct and a HeaderSection parsed from a parser see them:
+\* <<QR, Opcode, AA, TC, RD, RA, Z, AD, CD, RCODE>>
+Bit(o, k) == (o \div (2 ^ k)) % 2
+HBits(m) == <<Bit(At(m, 2), 7), Opcode(m), Bit(At(m, 2), 2), Bit(At(m, 2), 1), Bit(At(m, 2), 0),
+              Bit(At(m, 3), 7), Bit(At(m, 3), 6), Bit(At(m, 3), 5), Bit(At(m, 3), 4), Rcode(m)>>
 
 T_A == 1   T_NS == 2   T_CNAME == 5   T_SOA == 6   T_PTR == 12   T_MX == 15
 T_AAAA == 28   T_OPT == 41   T_IXFR == 251   T_AXFR == 252
@@ -196,12 +202,15 @@ QItems(m, pos, rem, acc) ==
     IF ~q.ok THEN [items |-> acc, err |-> TRUE, end |-> pos]
     ELSE QItems(m, q.next, rem - 1, Append(acc, QItem(q)))
 
-RECURSIVE RItems(_, _, _, _)
-RItems(m, pos, rem, acc) ==
-  IF rem = 0 THEN [items |-> acc, err |-> FALSE, end |-> pos]
+\* rdp: where the RDATA of each item starts (the typed views below show the
+\* octets of fixed-length RDATA)
+RECURSIVE RItemsP(_, _, _, _, _)
+RItemsP(m, pos, rem, acc, pacc) ==
+  IF rem = 0 THEN [items |-> acc, rdp |-> pacc, err |-> FALSE, end |-> pos]
   ELSE LET r == ParseRecord(m, pos) IN
-    IF ~r.ok THEN [items |-> acc, err |-> TRUE, end |-> pos]
-    ELSE RItems(m, r.next, rem - 1, Append(acc, RItem(m, r)))
+    IF ~r.ok THEN [items |-> acc, rdp |-> pacc, err |-> TRUE, end |-> pos]
+    ELSE RItemsP(m, r.next, rem - 1, Append(acc, RItem(m, r)), Append(pacc, r.rdpos))
+RItems(m, pos, rem, acc) == RItemsP(m, pos, rem, acc, <<>>)
 
 RECURSIVE SkipAll(_, _, _)
 SkipAll(m, pos, rem) ==
@@ -219,11 +228,11 @@ SecStart(m, sec) ==
     IF ~prev.ok THEN [ok |-> FALSE, pos |-> 0]
     ELSE LET s == SkipAll(m, prev.pos, Count(m, sec - 1)) IN [ok |-> s.ok, pos |-> s.end]
 
-NoSection == [reach |-> FALSE, items |-> <<>>, err |-> FALSE]
+NoSection == [reach |-> FALSE, items |-> <<>>, err |-> FALSE, rdp |-> <<>>]
 SecFrom(m, st, cnt) ==
   IF ~st.ok THEN NoSection
   ELSE LET r == RItems(m, st.pos, cnt, <<>>)
-       IN [reach |-> TRUE, items |-> r.items, err |-> r.err]
+       IN [reach |-> TRUE, items |-> r.items, err |-> r.err, rdp |-> r.rdp]
 
 \* all four sections at once (S.q, S.st[1..3], S.sec[1..3]); the other
 \* operators take this record so that nothing is evaluated twice
@@ -386,6 +395,75 @@ SliceLabels(m, start) ==
   IF raw < 0 \/ "D_slice_iter_loop" \in Dev THEN raw ELSE SliceWalkB(m, start, 0, 255)
 
 ---------------------------------------------------------------------------
+(* Typed views of a record section.  RecordSection::limit_to::<D>() hands   *)
+(* out the records whose type D takes, limit_to_in::<D>() those of them in  *)
+(* class IN, into_records::<D>() all of them; a record the view skips is    *)
+(* still framed like any other (a framing error ends every view), a record  *)
+(* it takes yields a value or, if D rejects the RDATA, an error after which *)
+(* the walk goes on.  A view is a function of the section's items alone:    *)
+(* how the iterator was obtained (directly, as a clone, as a clone of a     *)
+(* clone, mid-walk) does not matter.  D is the record-data type:            *)
+(* one concrete type, or one of the three catch-alls (AllRecordData reads   *)
+(* every type by its own layout, ZoneRecordData reads OPT and other         *)
+(* pseudo-types as raw octets, UnknownRecordData reads everything as raw    *)
+(* octets).                                                                 *)
+
+TView(k, d) == [k |-> k, d |-> d]            \* k: "raw" "lim" "limin" "any"
+RawView == TView("raw", "")
+DataType(d) ==
+  CASE d = "A" -> T_A [] d = "Aaaa" -> T_AAAA [] d = "Ns" -> T_NS [] d = "Cname" -> T_CNAME
+    [] d = "Ptr" -> T_PTR [] d = "Mx" -> T_MX [] d = "Soa" -> T_SOA [] d = "Opt" -> T_OPT
+    [] d = "Txt" -> 16 [] d = "Dnskey" -> 48 [] d = "Ds" -> 43 [] d = "Nsec" -> 47
+    [] OTHER -> -1                              \* All, Zone, Unknown: every type
+Selects(v, type, class) ==
+  /\ v.k = "limin" => class = 1
+  /\ v.k = "any" \/ DataType(v.d) < 0 \/ DataType(v.d) = type
+
+RdAs(d, type, rd) ==
+  IF d = "Unknown" \/ (d = "Zone" /\ type = T_OPT) THEN Rd("raw", TRUE, <<>>, <<>>) ELSE rd
+RdSum(m, rd, rdpos, rdlen) ==
+  CASE rd.k = "names" -> rd.names
+    [] rd.k = "opt" -> rd.opts
+    [] rd.k = "fixed" -> Slice(m, rdpos, rdpos + rdlen)
+    [] OTHER -> <<rdlen>>
+\* what a view yields for an item it takes: the record, an error, or "o"
+\* where the specification does not know the layout (value or error)
+TElem(m, v, it, rdpos) ==
+  LET rd == RdAs(v.d, it[2], it[7]) IN
+  IF rd.k = "opaque" THEN <<"o">>
+  ELSE IF ~rd.ok THEN <<"e">>
+  ELSE <<"r", it[1], it[2], it[3], it[4], it[5], RdSum(m, rd, rdpos, it[6])>>
+
+\* the indices of the items a view takes, and the whole walk from item `from`
+TIdx(v, s, from) ==
+  SelectSeq([i \in 1..(Len(s.items) - from + 1) |-> from + i - 1],
+            LAMBDA i : Selects(v, s.items[i][2], s.items[i][3]))
+TWalkFrom(m, v, s, from) ==
+  LET idx == TIdx(v, s, from)
+  IN [j \in 1..Len(idx) |-> TElem(m, v, s.items[idx[j]], s.rdp[idx[j]])]
+     \o (IF s.err THEN << <<"e">> >> ELSE <<>>)
+
+\* the views the read battery walks in every reachable record section
+TViews == << TView("lim", "All"), TView("limin", "All"), TView("any", "All"),
+             TView("lim", "A"), TView("limin", "A"), TView("lim", "Cname"), TView("limin", "Cname"),
+             TView("lim", "Aaaa"), TView("limin", "Ns"), TView("lim", "Ptr"), TView("lim", "Mx"),
+             TView("limin", "Soa"), TView("lim", "Opt"), TView("lim", "Txt"), TView("limin", "Dnskey"),
+             TView("lim", "Ds"), TView("lim", "Nsec"), TView("lim", "Zone"), TView("lim", "Unknown"),
+             TView("limin", "Unknown") >>
+TypedS(m, S) ==
+  [x \in 1..3 |-> IF S.sec[x].reach
+                  THEN [i \in 1..Len(TViews) |-> TWalkFrom(m, TViews[i], S.sec[x], 1)]
+                  ELSE <<>>]
+
+\* a record read at a given offset outside any section (Record::parse,
+\* RecordHeader::parse + advance, RecordHeader::parse_and_skip,
+\* ParsedRecord::parse all read the same header; ParsedRecord::skip skips)
+RecAt(m, pos) ==
+  LET r == ParseRecord(m, pos)  k == SkipRecord(m, pos) IN
+  << IF r.ok THEN <<1, r.next, r.type, r.class, r.ttlhi, r.ttllo, r.rdlen>> ELSE <<0>>,
+     IF k.ok THEN <<1, k.next>> ELSE <<0>> >>
+
+---------------------------------------------------------------------------
 (* The projection compared with the implementation (S->I cases and I->S     *)
 (* "read" events): everything the read battery observes.  sl lists          *)
 (* SliceLabels for the given start offsets.                                 *)
@@ -398,10 +476,13 @@ Projection(m, starts) ==
            sq == SoleQuestion(m)
        IN [short |-> FALSE,
            hdr |-> <<HId(m), HFlags(m), QD(m), AN(m), NS(m), AR(m)>>,
+           hdrx |-> HBits(m),
            q |-> [items |-> S.q.items, err |-> S.q.err],
-           an |-> S.sec[1],
-           ns |-> S.sec[2],
-           ar |-> S.sec[3],
+           an |-> ProjSec(S.sec[1]),
+           ns |-> ProjSec(S.sec[2]),
+           ar |-> ProjSec(S.sec[3]),
+           typed |-> TypedS(m, S),
+           recat |-> [i \in 1..Len(starts) |-> RecAt(m, starts[i])],
            iter |-> IterCountsS(m, S),
            cname |-> CanonicalNameS(m, S),
            opt |-> OptRecordS(S),
